@@ -76,14 +76,12 @@ func verifLlamaVocab(t testing.TB) *Vocabulary {
 		BOS: m["<|begin_of_text|>"], EOS: m["<|eot_id|>"], EOT: m["<|eom_id|>"], AddBOS: true}
 }
 
-// verifByteMap observes the real byte->rune map of BytePairEncoding.Encode and the rune->byte map of
-// Decode by EXECUTING them with a vocabulary in which every rune below 0x180 is its own token (id = rune).
-// Bytes are fed inside valid UTF-8 characters (regexp2 would replace a lone invalid byte).
-// enc[b] = -1 for the 13 byte values that cannot occur in valid UTF-8.
-func verifByteMap(t testing.TB) (enc [256]int, dec [0x180]int) {
-	const off = 200 // ids 105/106 are always "special": keep them away from the rune tokens
-	v := &Vocabulary{}
-	for i := 0; i < off; i++ {
+// verifProbeVocab: every rune below 0x180 is its own token (id = verifProbeOff + rune).
+const verifProbeOff = 200 // ids 105/106 are always "special": keep them away from the rune tokens
+
+func verifProbeVocab() *Vocabulary {
+	v := &Vocabulary{BOS: -1, EOS: -1, EOT: -1}
+	for i := 0; i < verifProbeOff; i++ {
 		v.Values = append(v.Values, fmt.Sprintf("[filler%d]", i))
 		v.Types = append(v.Types, TOKEN_TYPE_UNUSED)
 	}
@@ -91,21 +89,45 @@ func verifByteMap(t testing.TB) (enc [256]int, dec [0x180]int) {
 		v.Values = append(v.Values, string(rune(r)))
 		v.Types = append(v.Types, TOKEN_TYPE_NORMAL)
 	}
+	return v
+}
+
+// verifByteMap observes the real byte->rune map of BytePairEncoding.Encode and the rune->byte map of
+// Decode by EXECUTING them with the probe vocabulary.  Bytes are fed inside valid UTF-8 characters
+// (regexp2 would replace a lone invalid byte).  enc[b] = -1 for the 13 byte values that cannot occur in
+// valid UTF-8 (and for bytes the probe could not observe).  An unexpected answer is RECORDED in problems
+// (never fatal: the correspondence run must still happen and find the concrete text); the byte is then
+// observed a second way, inside a longer piece ("a" + char with the pre-tokenizer `(?s).+`).
+func verifByteMap(t testing.TB) (enc [256]int, dec [0x180]int, problems []string) {
+	const off = verifProbeOff
+	v := verifProbeVocab()
 	bpe := NewBytePairEncoding(`(?s).`, v)
+	whole := NewBytePairEncoding(`(?s).+`, verifProbeVocab())
 	for i := range enc {
 		enc[i] = -1
 	}
-	see := func(s string) {
-		ids, err := bpe.Encode(s, false)
-		if err != nil || len(ids) != len(s) {
-			t.Fatalf("byte map probe %q: ids=%v err=%v", s, ids, err)
-		}
+	record := func(s string, ids []int32, skip int) {
 		for i := 0; i < len(s); i++ {
-			r := int(ids[i]) - off
+			r := int(ids[i+skip]) - off
 			if enc[s[i]] >= 0 && enc[s[i]] != r {
-				t.Fatalf("byte %#x maps to both %#x and %#x", s[i], enc[s[i]], r)
+				problems = append(problems, fmt.Sprintf("byte %#x maps to both %#x and %#x (probe %q)", s[i], enc[s[i]], r, s))
+				continue
 			}
 			enc[s[i]] = r
+		}
+	}
+	see := func(s string) {
+		// primary observation: the character inside a longer piece ("a" + s as ONE piece), which no
+		// whole-piece shortcut can intercept; cross-checked against the character as a piece of its own
+		ids, err := whole.Encode("a"+s, false)
+		if err == nil && len(ids) == len(s)+1 {
+			record(s, ids, 1)
+		} else {
+			problems = append(problems, fmt.Sprintf("Encode(%q) as one piece: ids=%v err=%v, want %d ids", "a"+s, ids, err, len(s)+1))
+		}
+		alone, err2 := bpe.Encode(s, false)
+		if err2 != nil || err != nil || verifIds(alone) != verifIds(ids[min(1, len(ids)):]) {
+			problems = append(problems, fmt.Sprintf("Encode(%q) alone gives ids=%v, inside a piece %v", s, alone, ids))
 		}
 	}
 	for r := rune(0); r < 0x800; r++ { // all ASCII, all continuation bytes, lead bytes C2..DF
@@ -117,20 +139,21 @@ func verifByteMap(t testing.TB) (enc [256]int, dec [0x180]int) {
 	}
 	for r := 0; r < 0x180; r++ {
 		s, err := bpe.Decode([]int32{int32(r + off)})
-		if err != nil || len(s) > 1 {
-			t.Fatalf("decode probe %#x: %q %v", r, s, err)
-		}
 		dec[r] = -1
+		if err != nil || len(s) > 1 {
+			problems = append(problems, fmt.Sprintf("Decode of the one-rune token %#x: %q %v", r, s, err))
+			continue
+		}
 		if len(s) == 1 {
 			dec[r] = int(s[0])
 		}
 	}
-	return enc, dec
+	return enc, dec, problems
 }
 
-// TestVerifC20Table: Tie 1 — emit the observed byte tables.
+// TestVerifC20Table: Tie 1 — emit the observed byte tables (+ anything odd the probe saw).
 func TestVerifC20Table(t *testing.T) {
-	enc, dec := verifByteMap(t)
+	enc, dec, problems := verifByteMap(t)
 	f, err := os.Create(filepath.Join(zzverif.OutDir(), "table.txt"))
 	if err != nil {
 		t.Fatal(err)
@@ -143,6 +166,9 @@ func TestVerifC20Table(t *testing.T) {
 	}
 	for r, b := range dec {
 		fmt.Fprintf(f, "dec %d %d\n", r, b)
+	}
+	for _, p := range problems {
+		fmt.Fprintf(f, "problem 0 0 %s\n", strings.ReplaceAll(p, "\n", " "))
 	}
 }
 
@@ -241,6 +267,8 @@ func verifMaxRunes(v *Vocabulary) int {
 
 func verifTokenizers(t testing.TB, enc [256]int) []*verifTok {
 	var out []*verifTok
+	// the byte-map probe's vocabulary (every rune < 0x180 a token, one piece per character) is a tokenizer
+	// of the run too, so that whatever disturbs the probe is also found as a concrete round-trip failure
 	mkBPE := func(name string, v *Vocabulary, covering bool) {
 		bpe := NewBytePairEncoding(verifLlamaPre, v)
 		out = append(out, &verifTok{name: name, family: "bpe", tp: bpe, bpe: &bpe, vocab: v, maxRunes: verifMaxRunes(v), covering: covering})
@@ -251,6 +279,8 @@ func verifTokenizers(t testing.TB, enc [256]int) []*verifTok {
 	sv := verifSynthSPM()
 	spm := NewSentencePieceModel(sv)
 	out = append(out, &verifTok{name: "spm", family: "spm", tp: spm, vocab: sv, maxRunes: verifMaxRunes(sv), covering: true})
+	pb := NewBytePairEncoding(`(?s).`, verifProbeVocab())
+	out = append(out, &verifTok{name: "probe", family: "bpe", tp: pb, bpe: &pb, vocab: pb.vocab, maxRunes: 12, covering: true})
 	for _, tk := range out {
 		for i, s := range tk.vocab.Values {
 			if !utf8.ValidString(s) || s == "" {
@@ -717,7 +747,7 @@ func verifGenSegs(r *zzverif.Rng, tk *verifTok, out *zzverif.Out) []verifSeg {
 	specials := tk.vocab.SpecialVocabulary()
 	for i := 0; i < n; i++ {
 		var s string
-		k := r.Intn(20)
+		k := r.Intn(22)
 		switch {
 		case k < 4:
 			s = zzverif.Pick(r, verifWords)
@@ -758,9 +788,19 @@ func verifGenSegs(r *zzverif.Rng, tk *verifTok, out *zzverif.Out) []verifSeg {
 		case k == 13:
 			s = zzverif.Pick(r, verifCombining)
 			out.Count("seg_combining")
-		case k == 14:
+		case k == 14 && r.Bool():
 			s = zzverif.Pick(r, verifTricky)
 			out.Count("seg_tricky")
+		case k == 14 || k == 19:
+			// U+00A1..U+0143 (Latin-1 supplement, Latin Extended-A): as characters these are exactly the
+			// strings the byte-level vocabularies use for the remapped bytes; singly or in short runs, next to
+			// digits, spaces and punctuation, so that the pre-tokenizer isolates them
+			d := r.Pick3(1, 2, 4)
+			for j := 0; j < d; j++ {
+				s += string(rune(0xa1 + r.Intn(0x143-0xa1+1)))
+			}
+			s = zzverif.Pick(r, []string{"", "", " ", "5", "12", ".", ", ", "\n", "a"}) + s + zzverif.Pick(r, []string{"", "", " ", "5", "100", "!", "; ", "\t", "b"})
+			out.Count("seg_latin1_exta")
 		case k == 15 || k == 16:
 			if len(specials) > 0 {
 				sp := zzverif.Pick(r, specials)
@@ -810,8 +850,12 @@ func verifFixedCases() [][]verifSeg {
 	var cs [][]verifSeg
 	one := func(s string) { cs = append(cs, []verifSeg{{s, false}}) }
 	one("")
-	for c := 0; c < 0x100; c++ {
+	for c := 0; c < 0x180; c++ {
 		one(string(rune(c)))
+	}
+	for c := 0xa1; c <= 0x143; c++ {
+		one(string(rune(c)) + "5")
+		one("7 " + string(rune(c)) + string(rune(c)) + ".")
 	}
 	for c := 0x20; c < 0x7f; c++ {
 		one("a" + string(rune(c)) + "b")
@@ -831,10 +875,11 @@ func verifFixedCases() [][]verifSeg {
 }
 
 func TestVerifC20(t *testing.T) {
-	enc, _ := verifByteMap(t)
+	enc, _, problems := verifByteMap(t)
 	toks := verifTokenizers(t, enc)
 	out := zzverif.NewOut()
 	defer out.Close()
+	out.Add("byte_map_probe_problems", len(problems))
 	byName := map[string]*verifTok{}
 	for _, tk := range toks {
 		byName[tk.name] = tk
@@ -863,10 +908,15 @@ func TestVerifC20(t *testing.T) {
 		}
 	}
 
-	for _, segs := range verifFixedCases() {
-		for _, tk := range toks {
-			tk.runCase(enc, segs, false, out)
-			out.Count("fixed_cases")
+	// real and synthetic vocabularies first, the probe vocabulary last (the first failure of a kind is the replay)
+	for _, pass := range []bool{false, true} {
+		for _, segs := range verifFixedCases() {
+			for _, tk := range toks {
+				if (tk.name == "probe") == pass {
+					tk.runCase(enc, segs, false, out)
+					out.Count("fixed_cases")
+				}
+			}
 		}
 	}
 	n := zzverif.EnvInt("VERIF_N", 2000)
@@ -875,7 +925,7 @@ func TestVerifC20(t *testing.T) {
 	root := zzverif.NewRng(zzverif.Seed()).Fork()
 	for i := 0; i < n; i++ {
 		r := root.Fork()
-		tk := toks[[]int{0, 0, 0, 1, 2, 3, 3, 3}[r.Intn(8)]]
+		tk := toks[[]int{0, 0, 0, 0, 1, 2, 3, 3, 3, 4}[r.Intn(10)]]
 		segs := verifGenSegs(r, tk, out)
 		tk.runCase(enc, segs, r.Chance(1, 4), out)
 	}
